@@ -74,6 +74,30 @@ func registerMIDI(e *Engine) {
 		}
 		return e.lowerBool(e.deepEqual(a.t, a.v, b.v))
 	}
+	// binary.Write for the fixed-size integers gomidi's writer emits (big endian)
+	r["encoding/binary.Write"] = func(e *Engine, fr *frame, args []Value, site ssa.CallInstruction) Value {
+		w := args[0].(iface)
+		data := args[2].(iface)
+		if data.t == nil || w.t == nil {
+			e.abort(abortEngine, "binary.Write(nil)")
+		}
+		wd, _, ok := intInfo(data.t)
+		if !ok {
+			e.abort(abortEngine, fmt.Sprintf("binary.Write of %v not modelled", data.t))
+		}
+		t := e.lift(data.v, data.t)
+		bt := types.Typ[types.Uint8]
+		var bs []Value
+		for hi := wd - 1; hi >= 7; hi -= 8 {
+			bs = append(bs, e.lower(e.ctx.Extract(t, hi, hi-7), bt))
+		}
+		m := e.findMethod(w.t, "Write")
+		if m == nil {
+			e.abort(abortEngine, "binary.Write: writer without Write")
+		}
+		res := e.call(m, []Value{w.v, sliceV{a: bs}}, site).(tuple)
+		return res[1]
+	}
 	// MetaTempo uses math/big; the formula is the SMF tempo definition (microseconds per quarter)
 	r[smfPkg+".MetaTempo"] = func(e *Engine, fr *frame, args []Value, site ssa.CallInstruction) Value {
 		mk := func(b0, b1, b2 Value) Value {
@@ -101,6 +125,8 @@ func registerMIDI(e *Engine) {
 // gomidi's initialisers.
 func (e *Engine) smfGlobal(key string) Value {
 	switch key {
+	case "encoding/binary.BigEndian", "encoding/binary.LittleEndian":
+		return structV{}
 	case smfPkg + ".EOT":
 		return sliceV{a: []Value{uint64(0xFF), uint64(0x2F), uint64(0)}}
 	}
